@@ -15,6 +15,8 @@
 #include <opm/input/eclipse/EclipseState/Grid/EclipseGrid.hpp>
 #include <opm/input/eclipse/EclipseState/Grid/GridDims.hpp>
 #include <opm/input/eclipse/EclipseState/Grid/MapAxes.hpp>
+#include <opm/input/eclipse/EclipseState/Grid/MinpvMode.hpp>
+#include <opm/input/eclipse/EclipseState/Grid/PinchMode.hpp>
 #include <opm/input/eclipse/EclipseState/Grid/NNC.hpp>
 #include <opm/input/eclipse/Parser/Parser.hpp>
 #include <opm/input/eclipse/Units/UnitSystem.hpp>
@@ -27,6 +29,7 @@
 #include <cstdlib>
 #include <filesystem>
 #include <iostream>
+#include <map>
 #include <memory>
 #include <omp.h>
 #include <sstream>
@@ -330,6 +333,18 @@ std::vector<EclipseGrid> omGrids(uint64_t seed, const std::string& tier) {
         CP g = genPlanarCP(r, tier == "thorough" ? 14 : 9, r.coin(), r.coin(), false);
         std::vector<int> act = genActnum(r, g.nx * g.ny * g.nz);
         gs.emplace_back(std::array<int, 3>{ g.nx, g.ny, g.nz }, g.coord, g.zcorn, act.data());
+    }
+    {   // a RADIAL grid: the cylindrical branch of the OpenMP loop in activeVolume()
+        const int nx = r.range(3, 9), ny = r.range(3, 9), nz = r.range(2, 6);
+        V drv, dth, dzv, tops;
+        for (int i = 0; i < nx; ++i) drv.push_back(rlen(r, 0.2, 30));
+        for (int j = 0; j < ny; ++j) dth.push_back(rlen(r, 1, 360.0 / ny));
+        for (int k = 0; k < nz; ++k) dzv.push_back(rlen(r, 0.5, 30));
+        for (int n = 0; n < nx * ny; ++n) tops.push_back(rlen(r, 1000, 1020));
+        std::ostringstream s;
+        s << "RUNSPEC\n\nDIMENS\n " << nx << " " << ny << " " << nz << " /\n\nRADIAL\n\nMETRIC\n\nGRID\n\nINRAD\n " << num(rlen(r, 0.05, 1)) << " /\n\n"
+          << kwData("DRV", drv) << kwData("DTHETAV", dth) << kwData("DZV", dzv) << kwData("TOPS", tops);
+        gs.emplace_back(parse(s.str()));
     }
     return gs;
 }
@@ -822,6 +837,636 @@ void propSeq(vh::PropLog& log, std::map<std::string, long>& st, vh::Rng& r, int 
     st["seq"]++;
 }
 
+// =============================== third round ===============================
+// C13 harness, third round (included by grid.cpp inside its anonymous namespace):
+// MINPV / MINPORV / setMINPVV / cellActiveAfterMINPV, PINCH options, RADIAL / SPIDER grids,
+// GRIDUNIT rescaling, MapAxes transform / inv_transform, and a wider corner-point generator
+// (faults with large throws, inactive layers, zero-thickness cells, collapsed pillars).
+
+// ---- generators -----------------------------------------------------------------------------
+
+// A corner-point grid with the features the first rounds did not reach: zero-thickness cells and
+// whole zero-thickness layers, collapsed pillars (top == bottom point: the `zt == zb` branch),
+// faults whose throw exceeds the layer thickness (neighbouring columns do not overlap at all),
+// inactive layers / columns.  Faces stay planar (plane per column), so the exact volume is known.
+CP genHardCP(vh::Rng& r, int maxn, std::map<std::string, long>* st = nullptr) {
+    CP g;
+    g.nx = r.range(1, maxn); g.ny = r.range(1, maxn); g.nz = r.range(1, maxn);
+    const int nx = g.nx, ny = g.ny, nz = g.nz;
+    const double zt = rlen(r, 900, 1100), H = 800 + rlen(r, 0, 100), zb = zt + H;
+    const bool shear = r.coin(1, 3);
+    const double sx = shear ? (r.unit() - 0.5) * 0.4 : 0.0, sy = shear ? (r.unit() - 0.5) * 0.4 : 0.0;
+    V px((nx + 1) * (ny + 1)), py((nx + 1) * (ny + 1));
+    V xs(nx + 1, 0.0), ys(ny + 1, 0.0);
+    for (int i = 0; i < nx; ++i) xs[i + 1] = xs[i] + rlen(r, 20, 120);
+    for (int j = 0; j < ny; ++j) ys[j + 1] = ys[j] + rlen(r, 20, 120);
+    for (int j = 0; j <= ny; ++j) for (int i = 0; i <= nx; ++i) { px[i + j * (nx + 1)] = xs[i]; py[i + j * (nx + 1)] = ys[j]; }
+    g.coord.resize(6 * (nx + 1) * (ny + 1));
+    long collapsed = 0;
+    for (int p = 0; p < (nx + 1) * (ny + 1); ++p) {
+        const bool degen = !shear && r.coin(1, 5);          // collapsed pillar: one point
+        collapsed += degen;
+        g.coord[6 * p + 0] = px[p]; g.coord[6 * p + 1] = py[p]; g.coord[6 * p + 2] = zt;
+        g.coord[6 * p + 3] = degen ? px[p] : px[p] + sx * H; g.coord[6 * p + 4] = degen ? py[p] : py[p] + sy * H; g.coord[6 * p + 5] = degen ? zt : zb;
+    }
+    g.zcorn.assign(size_t(8) * nx * ny * nz, 0.0);
+    V base(nz + 1); base[0] = zt + 20 + rlen(r, 0, 30);
+    std::vector<bool> zeroLayer(nz);
+    long zl = 0;
+    for (int k = 0; k < nz; ++k) { zeroLayer[k] = r.coin(1, 5); zl += zeroLayer[k]; base[k + 1] = base[k] + (zeroLayer[k] ? 0.0 : rlen(r, 1, 25)); }
+    long zc = 0, bigFault = 0;
+    for (int j = 0; j < ny; ++j) for (int i = 0; i < nx; ++i) {
+        const bool big = r.coin(1, 4);
+        bigFault += big;
+        const double off = big ? rlen(r, 40, 120) * (r.coin() ? 1 : -1) : (r.coin(1, 3) ? rlen(r, -15, 15) : 0.0);
+        const double b = (r.unit() - 0.5) * 0.1, c = (r.unit() - 0.5) * 0.1;
+        const int pinchK = r.coin(1, 3) ? r.range(0, nz - 1) : -1;      // this cell of the column has zero thickness
+        V cb(nz + 1); cb[0] = base[0];
+        for (int k = 0; k < nz; ++k) { const bool z0 = k == pinchK; zc += z0 && !zeroLayer[k]; cb[k + 1] = cb[k] + (z0 ? 0.0 : base[k + 1] - base[k]); }
+        for (int k = 0; k < nz; ++k) for (int cc = 0; cc < 8; ++cc) {
+            const int p = (i + (cc & 1)) + (j + ((cc >> 1) & 1)) * (nx + 1);
+            const int s = k + ((cc >> 2) & 1);
+            const double a = cb[s] + off;
+            const bool degen = g.coord[6 * p + 5] == g.coord[6 * p + 2];
+            const double ssx = degen ? 0.0 : sx, ssy = degen ? 0.0 : sy;
+            g.zcorn[zind(nx, ny, i, j, k, cc)] = (a + b * px[p] + c * py[p] - (b * ssx + c * ssy) * zt) / (1.0 - b * ssx - c * ssy);
+        }
+    }
+    // ACTNUM: inactive layers / columns / random
+    g.actnum.assign(nx * ny * nz, 1);
+    const int mode = r.range(0, 3);
+    long inactLayers = 0;
+    if (mode == 0) { for (int k = 0; k < nz; ++k) if (r.coin(1, 3)) { ++inactLayers; for (int n = 0; n < nx * ny; ++n) g.actnum[n + k * nx * ny] = 0; } }
+    else if (mode == 1) { for (int n = 0; n < nx * ny; ++n) if (r.coin(1, 3)) for (int k = 0; k < nz; ++k) g.actnum[n + k * nx * ny] = 0; }
+    else if (mode == 2) g.actnum = genActnum(r, nx * ny * nz);
+    if (st) { (*st)["hardcp.collapsed_pillars"] += collapsed; (*st)["hardcp.zero_layers"] += zl; (*st)["hardcp.zero_cells"] += zc;
+              (*st)["hardcp.big_faults"] += bigFault; (*st)["hardcp.inactive_layers"] += inactLayers; (*st)["hardcp.sheared"] += shear; }
+    return g;
+}
+
+struct Radial {
+    int nx, ny, nz, unit;
+    double inrad;
+    V drv, dth, dzv, dz, tops;
+    bool useDz, circle, spider;
+};
+
+Radial genRadial(vh::Rng& r, int maxn) {
+    Radial q;
+    q.nx = r.range(1, maxn); q.ny = r.range(1, maxn + 2); q.nz = r.range(1, maxn);
+    q.unit = r.range(0, 2);
+    q.inrad = r.coin(1, 4) ? 0.0 : rlen(r, 0.05, 2.0);
+    double w = rlen(r, 0.2, 2.0);
+    for (int i = 0; i < q.nx; ++i) { q.drv.push_back(w); w *= 1.0 + r.unit(); }
+    q.circle = r.coin();
+    if (q.circle) {                   // full circle: exactly 360 in total (integers add exactly)
+        int left = 360;
+        for (int j = 0; j < q.ny; ++j) { const int t = j == q.ny - 1 ? left : std::max(1, std::min(left - (q.ny - 1 - j), r.range(1, 2 * 360 / q.ny))); q.dth.push_back(t); left -= t; }
+    } else {
+        const double total = rlen(r, 10, 350);
+        V u; double s = 0; for (int j = 0; j < q.ny; ++j) { u.push_back(0.2 + r.unit()); s += u.back(); }
+        for (int j = 0; j < q.ny; ++j) q.dth.push_back(total * u[j] / s);
+    }
+    for (int k = 0; k < q.nz; ++k) q.dzv.push_back(rlen(r, 0.5, 30));
+    q.useDz = r.coin();
+    for (int k = 0; k < q.nz; ++k) for (int n = 0; n < q.nx * q.ny; ++n) q.dz.push_back(q.useDz ? rlen(r, 0.5, 30) : q.dzv[k]);
+    const bool flat = r.coin();
+    const double top0 = rlen(r, 500, 3000);
+    for (int n = 0; n < q.nx * q.ny; ++n) q.tops.push_back(flat ? top0 : top0 + rlen(r, 0, 20));
+    q.spider = false;
+    return q;
+}
+
+std::string deckRadial(const Radial& q, const std::string& extra = "") {
+    std::ostringstream s;
+    s << "RUNSPEC\n\nDIMENS\n " << q.nx << " " << q.ny << " " << q.nz << " /\n\n" << (q.spider ? "SPIDER" : "RADIAL") << "\n\n" << unitKw(q.unit) << "\n\nGRID\n\n";
+    s << "INRAD\n " << num(q.inrad) << " /\n\n";
+    if (q.circle) s << "CIRCLE\n\n";
+    s << kwData("DRV", q.drv) << kwData("DTHETAV", q.dth);
+    if (q.useDz) s << kwData("DZ", q.dz); else s << kwData("DZV", q.dzv);
+    s << kwData("TOPS", q.tops) << extra;
+    return s.str();
+}
+
+double lengthSI(int unit) { return unitSys(unit).to_si(UnitSystem::measure::length, 1.0); }
+
+// ---- correspondence ---------------------------------------------------------------------------
+
+std::string g2aStr(const EclipseGrid& g) {
+    std::vector<int> g2a(g.getCartesianSize());
+    for (size_t gi = 0; gi < g2a.size(); ++gi) { try { g2a[gi] = (int) g.activeIndex(gi); } catch (const std::exception&) { g2a[gi] = -1; } }
+    return joinI(g2a);
+}
+
+void emitMinpv(vh::Sink& sink, vh::Rng& r, int maxn) {
+    Block b = genBlock(r, maxn, true, false);
+    const int n = b.nx * b.ny * b.nz;
+    const int kind = r.range(0, 2);                 // none / MINPV / MINPORV
+    const double v = r.coin(1, 5) ? 0.0 : rlen(r, 1, 5000);
+    std::vector<int> act = genActnum(r, n);
+    std::string extra = kwInt("ACTNUM", act);
+    if (kind == 1) extra += "MINPV\n " + num(v) + " /\n\n";
+    if (kind == 2) extra += "MINPORV\n " + num(v) + " /\n\n";
+    Deck deck = parse(deckDTops(b, true, extra));
+    EclipseGrid g(deck);
+    std::string deckTok = "-";
+    if (kind == 1) deckTok = vh::hexF64(deck["MINPV"].back().getRecord(0).getItem(0).getSIDouble(0));
+    if (kind == 2) deckTok = vh::hexF64(deck["MINPORV"].back().getRecord(0).getItem(0).getSIDouble(0));
+    std::string setTok = "-", setok = "ok";
+    const int setKind = r.range(0, 3);              // 0,1: none; 2: right size; 3: wrong size
+    if (setKind >= 2) {
+        V mv(setKind == 2 ? n : (r.coin() ? n + 1 : std::max(0, n - 1)));
+        for (auto& x : mv) x = r.coin(1, 6) ? 0.0 : rlen(r, 1, 5000);
+        setTok = hexV(mv);
+        try { g.setMINPVV(mv); } catch (const std::exception&) { setok = "err"; }
+    }
+    const V& vec = g.getMinpvVector();
+    V porv(n);
+    for (int gi = 0; gi < n; ++gi) {
+        const int c = r.range(0, 5);
+        const double m = gi < (int) vec.size() ? vec[gi] : 0.0;
+        porv[gi] = c == 0 ? m : c == 1 ? std::nextafter(m, 0.0) : c == 2 ? std::nextafter(m, 1e300) : c == 3 ? 0.0 : rlen(r, 0, 6000);
+    }
+    std::string cells;
+    std::vector<int> mask(n);
+    for (int gi = 0; gi < n; ++gi) {
+        auto ijk = g.getIJK(gi);
+        bool a = false;
+        try { a = g.cellActiveAfterMINPV(ijk[0], ijk[1], ijk[2], porv[gi]); cells += a ? "1" : "0"; } catch (const std::exception&) { cells += "e"; }
+        mask[gi] = a ? g.getACTNUM()[gi] : 0;
+    }
+    EclipseGrid h(g);
+    h.resetACTNUM(mask);
+    sink.emit("gridx.minpv " + std::to_string(n) + " " + joinI(g.getACTNUM()) + " " + deckTok + " " + setTok + " " + hexV(porv),
+              std::to_string((int) g.getMinpvMode()) + "|" + hexV(vec) + "|" + setok + "|" + cells + "|" + joinI(mask) + "|" + std::to_string(h.getNumActive()) + "|" + g2aStr(h));
+    sink.count("minpv"); sink.count(kind == 0 ? "minpv.none" : kind == 1 ? "minpv.MINPV" : "minpv.MINPORV"); sink.count("minpv.set." + setok + (setKind >= 2 ? "" : ".none"));
+    // out of range: assertIJK
+    {
+        // k = nz is out of range: global index n + (i + nx*j) >= n
+        const int i = r.range(0, b.nx - 1), j = r.range(0, b.ny - 1);
+        std::string a = "ok";
+        try { (void) g.cellActiveAfterMINPV(i, j, b.nz, 1.0); } catch (const std::exception&) { a = "err"; }
+        sink.emit("gridx.minpvq " + std::to_string(n) + " " + std::to_string(n + i + b.nx * j), a);
+    }
+}
+
+void emitRadial(vh::Sink& sink, vh::Rng& r, int maxn) {
+    Radial q = genRadial(r, maxn);
+    // GRIDUNIT: one third of the decks give the lengths in another unit than the deck's
+    int gu = -1;
+    std::string extra;
+    if (r.coin(1, 3)) { gu = r.range(0, 2); extra = std::string("GRIDUNIT\n ") + gridUnitName(gu) + " /\n\n"; }
+    Deck deck = parse(deckRadial(q, extra));
+    EclipseGrid g(deck);
+    const double s = (gu < 0 || gu == q.unit) ? 1.0 : lengthSI(gu) / lengthSI(q.unit);
+    V DZ = q.useDz ? deck["DZ"].back().getSIDoubleData() : V();
+    if (!q.useDz) { const V& dzv = deck["DZV"].back().getSIDoubleData(); for (int k = 0; k < q.nz; ++k) for (int n = 0; n < q.nx * q.ny; ++n) DZ.push_back(dzv[k]); }
+    V vols(g.getCartesianSize());
+    for (size_t gi = 0; gi < vols.size(); ++gi) vols[gi] = g.getCellVolume(gi);
+    sink.emit("gridx.radial " + dims3(q.nx, q.ny, q.nz) + " " + vh::hexF64(s) + " " + vh::hexF64(deck["INRAD"].back().getRecord(0).getItem(0).getSIDouble(0)) + " "
+              + hexV(deck["DRV"].back().getSIDoubleData()) + " " + hexV(deck["DTHETAV"].back().getSIDoubleData()) + " " + hexV(DZ) + " " + hexV(deck["TOPS"].back().getSIDoubleData()),
+              hexV(g.getCOORD()) + " " + hexV(g.getZCORN()) + " " + std::to_string(g.getZcornFixed()) + " " + hexV(vols));
+    sink.count("radial"); sink.count(gu < 0 ? "radial.nogridunit" : "radial.gridunit"); sink.count("radial.cells", (long) vols.size());
+}
+
+void emitGridunit(vh::Sink& sink, vh::Rng& r, int maxn, const std::string& tmp, long& fileNo) {
+    CP cp = genHardCP(r, maxn);
+    const int unit = r.range(0, 2), gu = r.range(0, 2);
+    Deck deck = parse(deckHead(cp.nx, cp.ny, cp.nz, unit) + kwData("COORD", cp.coord) + kwData("ZCORN", cp.zcorn) + kwInt("ACTNUM", cp.actnum)
+                      + "GRIDUNIT\n " + gridUnitName(gu) + " /\n\n");
+    EclipseGrid g(deck);
+    // what the constructor had before apply_GRIDUNIT: SI values of the deck, ZCORN fixed up
+    EclipseGrid g0(std::array<int, 3>{ cp.nx, cp.ny, cp.nz }, deck["COORD"].back().getSIDoubleData(), deck["ZCORN"].back().getSIDoubleData(), nullptr);
+    if (gu == unit) {
+        sink.emit("gridx.gridunit " + vh::hexF64(1.0) + " " + vh::hexF64(1.0) + " " + hexV(g0.getCOORD()) + " " + hexV(g0.getZCORN()), hexV(g.getCOORD()) + " " + hexV(g.getZCORN()));
+    } else {
+        sink.emit("gridx.gridunit " + vh::hexF64(lengthSI(gu)) + " " + vh::hexF64(lengthSI(unit)) + " " + hexV(g0.getCOORD()) + " " + hexV(g0.getZCORN()),
+                  hexV(g.getCOORD()) + " " + hexV(g.getZCORN()));
+    }
+    sink.count("gridunit"); sink.count(gu == unit ? "gridunit.same" : "gridunit.other");
+    emitCells(sink, g, "hardcp.gridunit");
+    {   // save() of a GRIDUNIT grid writes the rescaled *input* arrays (m_input_coord / m_input_zcorn)
+        V ci = deck["COORD"].back().getSIDoubleData(), zi = deck["ZCORN"].back().getSIDoubleData();
+        if (gu != unit) { const double sc = lengthSI(gu) / lengthSI(unit); for (auto& x : ci) x = x * sc; for (auto& x : zi) x = x * sc; }
+        emitEgrid(sink, r, g, ci, zi, tmp, fileNo, "-", "-");
+        sink.count("gridunit.egrid");
+    }
+    sink.emit("grid.act " + joinI(cp.actnum), std::to_string(g.getNumActive()) + "|" + g2aStr(g) + "|" + (g.getActiveMap().empty() ? "" : joinI(g.getActiveMap())));
+}
+
+void emitMapaxes(vh::Sink& sink, vh::Rng& r) {
+    const double x2 = rlen(r, -1e5, 1e6), y2 = rlen(r, -1e5, 1e6);
+    const double ang = r.unit() * 6.283185307179586, skew = r.coin(1, 3) ? (r.unit() - 0.5) : 0.0;
+    const double lx = rlen(r, 1, 1000), ly = rlen(r, 1, 1000);
+    const double x3 = x2 + lx * std::cos(ang), y3 = y2 + lx * std::sin(ang);
+    const double x1 = x2 + ly * std::cos(ang + 1.5707963267948966 + skew), y1 = y2 + ly * std::sin(ang + 1.5707963267948966 + skew);
+    const int mu = r.range(0, 3);
+    const char* names[] = { "METRES", "FEET", "CM" };
+    const double lfs[] = { 1.0, 0.3048, 0.01 };
+    MapAxes m = mu == 3 ? MapAxes(x1, y1, x2, y2, x3, y3) : MapAxes(std::string(names[mu]), x1, y1, x2, y2, x3, y3);
+    const double lf = mu == 3 ? 1.0 : lfs[mu];
+    const double hx = std::hypot(x3 - x2, y3 - y2), hy = std::hypot(x1 - x2, y1 - y2);      // the two libm values init() uses
+    for (int t = 0; t < 4; ++t) {
+        const double x = rlen(r, -5000, 5000), y = rlen(r, -5000, 5000);
+        double tx = x, ty = y, ux = x, uy = y;
+        m.transform(tx, ty); m.inv_transform(ux, uy);
+        sink.emit("gridx.mapaxes " + vh::hexF64(lf) + " " + vh::hexF64(x1) + " " + vh::hexF64(y1) + " " + vh::hexF64(x2) + " " + vh::hexF64(y2) + " " + vh::hexF64(x3) + " " + vh::hexF64(y3)
+                  + " " + vh::hexF64(hx) + " " + vh::hexF64(hy) + " " + vh::hexF64(x) + " " + vh::hexF64(y),
+                  vh::hexF64(tx) + vh::hexF64(ty) + vh::hexF64(ux) + vh::hexF64(uy));
+        sink.count("mapaxes");
+    }
+}
+
+void emitHardCP(vh::Sink& sink, vh::Rng& r, int maxn, const std::string& tmp, long& fileNo, int round) {
+    CP cp = genHardCP(r, maxn);
+    EclipseGrid g(std::array<int, 3>{ cp.nx, cp.ny, cp.nz }, cp.coord, cp.zcorn, cp.actnum.data());
+    sink.emit("grid.fixup " + dims3(cp.nx, cp.ny, cp.nz) + " " + hexV(cp.zcorn), std::to_string(g.getZcornFixed()) + " " + hexV(g.getZCORN()));
+    sink.count("cp.hard");
+    emitCells(sink, g, "hardcp");
+    emitCorners(sink, r, g);
+    sink.emit("grid.act " + joinI(cp.actnum), std::to_string(g.getNumActive()) + "|" + g2aStr(g) + "|" + (g.getActiveMap().empty() ? "" : joinI(g.getActiveMap())));
+    if (round % 2 == 1) emitEgrid(sink, r, g, cp.coord, cp.zcorn, tmp, fileNo, "-", "-");
+}
+
+// ---- property mode ------------------------------------------------------------------------------
+
+bool sameBits(double a, double b) { return vh::hexF64(a) == vh::hexF64(b); }
+
+// P8: MINPV rule, deactivation never changes geometry, setMINPVV, PINCH options, equal()
+void propMinpv(vh::PropLog& log, std::map<std::string, long>& st, vh::Rng& r, int maxn) {
+    const bool hard = r.coin();
+    int nx, ny, nz, unit = r.range(0, 2);
+    std::string body;
+    std::vector<int> act;
+    if (hard) {
+        CP cp = genHardCP(r, maxn, &st);
+        nx = cp.nx; ny = cp.ny; nz = cp.nz; act = cp.actnum;
+        body = deckHead(nx, ny, nz, unit) + kwData("COORD", cp.coord) + kwData("ZCORN", cp.zcorn);
+    } else {
+        Block b = genBlock(r, maxn, r.coin(), false);
+        b.unit = unit; nx = b.nx; ny = b.ny; nz = b.nz; act = genActnum(r, nx * ny * nz);
+        body = deckDTops(b, true);
+    }
+    const int n = nx * ny * nz;
+    const int kind = r.range(0, 2);
+    const double v = r.coin(1, 5) ? 0.0 : rlen(r, 1, 5000);
+    std::string extra = kwInt("ACTNUM", act);
+    if (kind == 1) extra += "MINPV\n " + num(v) + " /\n\n";
+    if (kind == 2) extra += "MINPORV\n " + num(v) + " /\n\n";
+    const bool withPinch = r.coin();
+    const double pth = rlen(r, 0.0001, 2.0), pgap = rlen(r, 0.5, 50);
+    const bool nogap = r.coin(), pall = r.coin(), mall = r.coin(), gapDefault = r.coin();
+    if (withPinch) extra += "PINCH\n " + num(pth) + " " + (nogap ? "NOGAP" : "GAP") + " " + (gapDefault ? std::string("1*") : num(pgap)) + " " + (pall ? "ALL" : "TOPBOT") + " " + (mall ? "ALL" : "TOP") + " /\n\n";
+    bool ok = true; std::string why;
+    try {
+        EclipseGrid g(parse(body + extra));
+        const double L = lengthSI(unit);
+        // MINPV state from the deck
+        if ((kind == 0) != (g.getMinpvMode() == MinpvMode::Inactive)) { ok = false; why = "MinpvMode does not follow the presence of MINPV/MINPORV"; }
+        if (ok && g.getMinpvVector().size() != (size_t) n) { ok = false; why = "getMinpvVector() size"; }
+        for (int gi = 0; gi < n && ok; ++gi) {
+            const double m = g.getMinpvVector()[gi];
+            if (kind == 0 ? m != 0.0 : !(m == g.getMinpvVector()[0] && (v == 0.0 ? m == 0.0 : m > 0.0) && (unit != 0 || close(m, v, 1e-14)))) { ok = false; why = "getMinpvVector()[" + std::to_string(gi) + "] = " + num(m); }
+        }
+        // PINCH
+        if (ok && g.isPinchActive() != withPinch) { ok = false; why = "isPinchActive"; }
+        if (ok && withPinch) {
+            if (!close(g.getPinchThresholdThickness(), pth * L, 1e-14)) { ok = false; why = "PINCH threshold " + num(g.getPinchThresholdThickness()); }
+            else if (g.getPinchGapMode() != (nogap ? PinchMode::NOGAP : PinchMode::GAP)) { ok = false; why = "PINCH item 2 (GAP/NOGAP)"; }
+            else if (g.getPinchOption() != (pall ? PinchMode::ALL : PinchMode::TOPBOT)) { ok = false; why = "PINCH item 4 (TOPBOT/ALL)"; }
+            else if (g.getMultzOption() != (mall ? PinchMode::ALL : PinchMode::TOP)) { ok = false; why = "PINCH item 5 (TOP/ALL)"; }
+            else if (gapDefault ? !(g.getPinchMaxEmptyGap() >= 1e19) : !close(g.getPinchMaxEmptyGap(), pgap * L, 1e-14)) { ok = false; why = "PINCH item 3 (max empty gap) " + num(g.getPinchMaxEmptyGap()); }
+        }
+        if (ok && !withPinch && (g.getPinchGapMode() != PinchMode::GAP || g.getPinchOption() != PinchMode::TOPBOT || g.getMultzOption() != PinchMode::TOP)) { ok = false; why = "PINCH defaults"; }
+        // the rule, cell by cell, thresholds hit exactly / one ulp below / above; evaluated on the state
+        // the deck gives and again after setMINPVV
+        std::vector<int> mask(n);
+        long removed = 0;
+        auto checkRule = [&]() {
+            const V vec = g.getMinpvVector();
+            const bool inUse = g.getMinpvMode() != MinpvMode::Inactive;
+            removed = 0;
+            for (int gi = 0; gi < n && ok; ++gi) {
+                const int c = r.range(0, 5);
+                const double m = vec[gi];
+                const double p = c == 0 ? m : c == 1 ? std::nextafter(m, -1.0) : c == 2 ? std::nextafter(m, 1e300) : c == 3 ? 0.0 : rlen(r, 0, 6000);
+                auto ijk = g.getIJK(gi);
+                const bool a = g.cellActiveAfterMINPV(ijk[0], ijk[1], ijk[2], p);
+                const bool expect = act[gi] > 0 && (!inUse || p >= m);
+                if (a != expect) { ok = false; why = "cellActiveAfterMINPV(g=" + std::to_string(gi) + ", porv=" + num(p) + ") = " + std::to_string(a) + " with ACTNUM=" + std::to_string(act[gi]) + " minpv=" + num(m) + (inUse ? " (in use)" : " (not in use)"); }
+                mask[gi] = a ? act[gi] : 0;
+                removed += act[gi] > 0 && !a;
+                st[inUse ? "minpv.inuse.inactive_cells" : "minpv.unused.inactive_cells"] += act[gi] <= 0;
+            }
+        };
+        if (ok) checkRule();
+        // setMINPVV
+        if (ok && r.coin()) {
+            V bad(n + 1, 1.0);
+            const V before = g.getMinpvVector(); const MinpvMode mb = g.getMinpvMode();
+            bool threw = false;
+            try { g.setMINPVV(bad); } catch (const std::exception&) { threw = true; }
+            if (!threw) { ok = false; why = "setMINPVV accepted a vector of the wrong size"; }
+            else if (g.getMinpvVector() != before || g.getMinpvMode() != mb) { ok = false; why = "failed setMINPVV modified the object"; }
+            V mv(n); for (auto& x : mv) x = r.coin(1, 6) ? 0.0 : rlen(r, 1, 5000);
+            if (ok) { g.setMINPVV(mv); if (g.getMinpvVector() != mv || g.getMinpvMode() != MinpvMode::EclSTD) { ok = false; why = "setMINPVV did not install the vector"; } }
+            st["minpv.setMINPVV"]++;
+            if (ok) checkRule();
+        }
+        const V vec = g.getMinpvVector();
+        const bool inUse = g.getMinpvMode() != MinpvMode::Inactive;
+        st["minpv.cells"] += n; st["minpv.removed"] += removed;
+        if (ok) {
+            bool threw = false;
+            try { (void) g.cellActiveAfterMINPV(nx, 0, 0, 1.0); } catch (const std::exception&) { threw = true; }
+            if (!threw) { ok = false; why = "cellActiveAfterMINPV accepted i = nx"; }
+        }
+        // deactivation: activity by the rule, geometry of every cell bit-identical
+        if (ok) {
+            if (r.coin()) (void) g.activeVolume();         // with and without a filled volume cache
+            EclipseGrid h(g);
+            h.resetACTNUM(mask);
+            long na = 0;
+            for (int gi = 0; gi < n && ok; ++gi) {
+                na += mask[gi] > 0;
+                if (h.cellActive(gi) != (mask[gi] > 0)) { ok = false; why = "activity after the pass, cell " + std::to_string(gi); break; }
+                CellQ a = query(g, gi), c = query(h, gi);
+                if (!sameBits(a.vol, c.vol) || !sameBits(a.depth, c.depth) || !sameBits(a.thick, c.thick)) { ok = false; why = "deactivation changed volume/depth/thickness of cell " + std::to_string(gi) + " (" + num(a.vol) + " vs " + num(c.vol) + ")"; }
+                for (int q = 0; q < 3 && ok; ++q) if (!sameBits(a.ctr[q], c.ctr[q]) || !sameBits(a.dims[q], c.dims[q])) { ok = false; why = "deactivation changed centre/dims of cell " + std::to_string(gi); }
+            }
+            if (ok && (h.getCOORD() != g.getCOORD() || h.getZCORN() != g.getZCORN())) { ok = false; why = "deactivation changed COORD/ZCORN"; }
+            if (ok && (long) h.getNumActive() != na) { ok = false; why = "getNumActive after the pass"; }
+            if (ok && h.getNumActive() > g.getNumActive()) { ok = false; why = "a MINPV pass activated cells"; }
+            if (ok) {
+                const auto& av = h.activeVolume();
+                for (size_t a = 0; a < av.size() && ok; ++a) if (!sameBits(av[a], g.getCellVolume(h.getGlobalIndex(a)))) { ok = false; why = "activeVolume() after the pass"; }
+            }
+            // equal(): a copy is equal, a different mask / MINPV vector is not
+            if (ok && !g.equal(EclipseGrid(g))) { ok = false; why = "copy not equal()"; }
+            if (ok && na != (long) g.getNumActive() && (g.equal(h) || h.equal(g))) { ok = false; why = "equal() ignores ACTNUM"; }
+            if (ok && inUse) {
+                EclipseGrid h2(g); V mv = vec; mv[r.below(n)] += 1.0; h2.setMINPVV(mv);
+                if (g.equal(h2) || h2.equal(g)) { ok = false; why = "equal() ignores the MINPV vector"; }
+            }
+        }
+    } catch (const std::exception& e) { ok = false; why = std::string("exception ") + (hard ? "(corner-point deck)" : "(DXV deck)"); }
+    if (ok) log.ok(); else log.fail("minpv", std::string(unitKw(unit)) + " " + dims3(nx, ny, nz) + " " + why + " deck-extra=" + vh::hex(extra));
+    st["minpv"]++;
+}
+
+// P9: RADIAL grids
+void propRadial(vh::PropLog& log, std::map<std::string, long>& st, vh::Rng& r, int maxn, const std::string& tmp, long& fileNo, bool& radialReloadReported) {
+    Radial q = genRadial(r, maxn);
+    bool ok = true; std::string why;
+    try {
+        EclipseGrid g(parse(deckRadial(q)));
+        const double L = lengthSI(q.unit);
+        V ri(q.nx + 1); ri[0] = q.inrad; for (int i = 0; i < q.nx; ++i) ri[i + 1] = ri[i] + q.drv[i];
+        double total = 0; for (double t : q.dth) total += t;
+        V layer(q.nz, 0.0);
+        double scaleXY = ri[q.nx] * L;
+        for (size_t gi = 0; gi < g.getCartesianSize() && ok; ++gi) {
+            auto ijk = g.getIJK(gi);
+            const double dz = q.dz[gi];
+            const double ve = M_PI * (ri[ijk[0] + 1] * ri[ijk[0] + 1] - ri[ijk[0]] * ri[ijk[0]]) * q.dth[ijk[1]] / 360.0 * dz * L * L * L;
+            const double v = g.getCellVolume(gi);
+            if (!(v > 0)) { ok = false; why = "volume not positive"; }
+            else if (!close(v, ve, 1e-11)) { ok = false; why = "cell volume " + num(v) + " != pi (ro^2-ri^2) dtheta/360 dz = " + num(ve); }
+            layer[ijk[2]] += v;
+            // corners lie on the circles of radius ri / ro at the sector angles
+            for (int c = 0; c < 8 && ok; ++c) {
+                auto p = g.getCornerPos(ijk[0], ijk[1], ijk[2], c);
+                const double rr = ri[ijk[0] + (c & 1)] * L;
+                double tj = 0; for (int j = 0; j < ijk[1] + ((c >> 1) & 1); ++j) tj += q.dth[j];
+                const double t = M_PI * (90 - tj) / 180;
+                if (!close(p[0], rr * std::cos(t), 0, 1e-11 * scaleXY) || !close(p[1], rr * std::sin(t), 0, 1e-11 * scaleXY)) { ok = false; why = "corner " + std::to_string(c) + " not on its circle/ray"; }
+            }
+            if (ok && !close(g.getCellThickness(gi), dz * L, 1e-11)) { ok = false; why = "thickness != DZ"; }
+            if (!ok) why += " cell=" + std::to_string(gi);
+        }
+        if (ok && !q.useDz) for (int k = 0; k < q.nz && ok; ++k) {
+            const double ve = M_PI * (ri[q.nx] * ri[q.nx] - ri[0] * ri[0]) * total / 360.0 * q.dzv[k] * L * L * L;
+            if (!close(layer[k], ve, 1e-10)) { ok = false; why = "layer " + std::to_string(k) + " total " + num(layer[k]) + " != annulus sector " + num(ve); }
+        }
+        if (ok && g.circle() != q.circle) { ok = false; why = "circle()"; }
+        // activeVolume() (OpenMP loop, radial branch) == getCellVolume
+        if (ok) {
+            EclipseGrid h(g);
+            const auto& av = h.activeVolume();
+            if (av.size() != h.getNumActive()) { ok = false; why = "activeVolume size"; }
+            for (size_t a = 0; a < av.size() && ok; ++a) if (!sameBits(av[a], g.getCellVolume(h.getGlobalIndex(a)))) { ok = false; why = "activeVolume()[a] != getCellVolume(global(a))"; }
+        }
+        // additivity under refinement: every ring, sector and layer cut in two
+        if (ok) {
+            Radial f = q; f.circle = false; f.useDz = true;
+            f.nx = 2 * q.nx; f.ny = 2 * q.ny; f.nz = 2 * q.nz;
+            f.drv.clear(); f.dth.clear(); f.dz.clear(); f.tops.clear();
+            const double fr = 0.25 + 0.5 * r.unit();
+            for (double d : q.drv) { f.drv.push_back(d * fr); f.drv.push_back(d - d * fr); }
+            for (double d : q.dth) { f.dth.push_back(d * fr); f.dth.push_back(d - d * fr); }
+            for (int j = 0; j < f.ny; ++j) for (int i = 0; i < f.nx; ++i) f.tops.push_back(q.tops[i / 2 + (j / 2) * q.nx]);
+            for (int k = 0; k < f.nz; ++k) for (int j = 0; j < f.ny; ++j) for (int i = 0; i < f.nx; ++i) {
+                const double d = q.dz[i / 2 + (j / 2) * q.nx + (k / 2) * q.nx * q.ny];
+                f.dz.push_back(k % 2 == 0 ? d * fr : d - d * fr);
+            }
+            EclipseGrid gf(parse(deckRadial(f)));
+            for (size_t gi = 0; gi < g.getCartesianSize() && ok; ++gi) {
+                auto ijk = g.getIJK(gi);
+                double s = 0;
+                for (int c = 0; c < 8; ++c) s += gf.getCellVolume(2 * ijk[0] + (c & 1), 2 * ijk[1] + ((c >> 1) & 1), 2 * ijk[2] + ((c >> 2) & 1));
+                if (!close(s, g.getCellVolume(gi), 1e-10)) { ok = false; why = "volumes of the 8 sub-cells add up to " + num(s) + ", parent " + num(g.getCellVolume(gi)) + " cell=" + std::to_string(gi); }
+            }
+            st["radial.refined"]++;
+        }
+        // EGRID round trip: arrays and activity come back; the file has no radial marker, the
+        // reloaded object computes hexahedron volumes (chords instead of arcs) - counted, not failed
+        if (ok) {
+            const std::string p1 = tmp + "/R" + std::to_string(fileNo++) + ".EGRID";
+            g.save(p1, false, {}, unitSys(q.unit));
+            EclipseGrid h(p1);
+            if (h.getNXYZ() != g.getNXYZ() || h.getACTNUM() != g.getACTNUM()) { ok = false; why = "radial save/load: dims or ACTNUM"; }
+            const auto& c1 = g.getCOORD(); const auto& c2 = h.getCOORD();
+            const auto& z1 = g.getZCORN(); const auto& z2 = h.getZCORN();
+            for (size_t n = 0; n < c1.size() && ok; ++n) if (!close(c1[n], c2[n], 2e-7, 1e-6 * scaleXY)) { ok = false; why = "radial save/load COORD[" + std::to_string(n) + "] " + num(c1[n]) + " vs " + num(c2[n]); }
+            for (size_t n = 0; n < z1.size() && ok; ++n) if (!close(z1[n], z2[n], 2e-7, 1e-30)) { ok = false; why = "radial save/load ZCORN"; }
+            double worst = 0, v0 = 0, v1 = 0;
+            for (size_t gi = 0; gi < g.getCartesianSize(); ++gi) {
+                worst = std::max(worst, std::fabs(h.getCellVolume(gi) / g.getCellVolume(gi) - 1.0));
+                v0 += g.getCellVolume(gi); v1 += h.getCellVolume(gi);
+            }
+            if (worst > 1e-3) st["radial.reload_volume_off_by_more_than_1e-3"]++;
+            st["radial.reload_worst_rel_volume_error_ppm"] = std::max(st["radial.reload_worst_rel_volume_error_ppm"], (long) (worst * 1e6));
+            // recorded finding (one stable key, reported once per run): the file carries no radial marker / radii,
+            // the reloaded object computes hexahedron volumes (chords instead of arcs)
+            if (ok && worst > 1e-5 && !radialReloadReported) {
+                radialReloadReported = true;
+                auto list = [](const V& v) { std::string t; for (double d : v) t += (t.empty() ? "" : ",") + num(d); return t; };
+                log.fail("grid.radial.reload_geometry", std::string("RADIAL ") + unitKw(q.unit) + " DIMENS " + dims3(q.nx, q.ny, q.nz) + " INRAD " + num(q.inrad) + " DRV " + list(q.drv)
+                         + " DTHETAV " + list(q.dth) + (q.useDz ? " DZ " + list(q.dz) : " DZV " + list(q.dzv)) + " TOPS " + list(q.tops) + (q.circle ? " CIRCLE" : "")
+                         + ": total volume in memory " + num(v0) + ", after save + load " + num(v1) + " (ratio " + num(v1 / v0) + ", worst cell off by " + num(worst * 100) + " %)");
+            }
+        }
+        st["radial.cells"] += (long) g.getCartesianSize();
+    } catch (const std::exception& e) { ok = false; why = "exception"; }
+    if (ok) log.ok(); else log.fail("radial", std::string(unitKw(q.unit)) + " " + dims3(q.nx, q.ny, q.nz) + " " + why + " inrad=" + num(q.inrad) + " drv=" + hexV(q.drv) + " dthetav=" + hexV(q.dth) + " dz=" + hexV(q.dz) + " tops=" + hexV(q.tops));
+    st["radial"]++;
+}
+
+// P10: GRIDUNIT: the same numbers under "deck unit A + GRIDUNIT B" and under "deck unit B" give the same grid
+void propGridunit(vh::PropLog& log, std::map<std::string, long>& st, vh::Rng& r, int maxn, const std::string& tmp, long& fileNo) {
+    const int form = r.range(0, 2);       // corner-point / DXV+TOPS / radial
+    const int unit = r.range(0, 2), gu = r.range(0, 2);
+    bool ok = true; std::string why;
+    const std::string guKw = std::string("GRIDUNIT\n ") + gridUnitName(gu) + (r.coin(1, 4) ? " MAP" : "") + " /\n\n";
+    try {
+        std::unique_ptr<EclipseGrid> a, b;
+        if (form == 0) {
+            CP cp = genHardCP(r, maxn, &st);
+            const std::string body = kwData("COORD", cp.coord) + kwData("ZCORN", cp.zcorn) + kwInt("ACTNUM", cp.actnum);
+            a = std::make_unique<EclipseGrid>(parse(deckHead(cp.nx, cp.ny, cp.nz, unit) + body + guKw));
+            b = std::make_unique<EclipseGrid>(parse(deckHead(cp.nx, cp.ny, cp.nz, gu) + body));
+        } else if (form == 1) {
+            Block bl = genBlock(r, maxn, r.coin(), false);
+            bl.unit = unit; a = std::make_unique<EclipseGrid>(parse(deckDTops(bl, r.coin(), guKw)));
+            bl.unit = gu;   b = std::make_unique<EclipseGrid>(parse(deckDTops(bl, true)));
+        } else {
+            Radial q = genRadial(r, maxn);
+            q.unit = unit; a = std::make_unique<EclipseGrid>(parse(deckRadial(q, guKw)));
+            q.unit = gu;   b = std::make_unique<EclipseGrid>(parse(deckRadial(q)));
+        }
+        if (a->getNXYZ() != b->getNXYZ() || a->getACTNUM() != b->getACTNUM()) { ok = false; why = "dims/ACTNUM"; }
+        const auto& c1 = a->getCOORD(); const auto& c2 = b->getCOORD();
+        const auto& z1 = a->getZCORN(); const auto& z2 = b->getZCORN();
+        double ext = 0; for (double c : c2) ext = std::max(ext, std::fabs(c));
+        for (size_t n = 0; n < c1.size() && ok; ++n) if (!close(c1[n], c2[n], 1e-14, 1e-14 * ext)) { ok = false; why = "COORD[" + std::to_string(n) + "] " + num(c1[n]) + " vs " + num(c2[n]); }
+        for (size_t n = 0; n < z1.size() && ok; ++n) if (!close(z1[n], z2[n], 1e-14)) { ok = false; why = "ZCORN[" + std::to_string(n) + "] " + num(z1[n]) + " vs " + num(z2[n]); }
+        for (size_t gi = 0; gi < a->getCartesianSize() && ok; ++gi) {
+            CellQ p = query(*a, gi), q = query(*b, gi);
+            const double tol = 1e-9 * (1 + ext / std::max(1e-9, std::min({ p.dims[0], p.dims[1] })));
+            if (!close(p.vol, q.vol, tol, 1e-13 * ext * ext * 30)) { ok = false; why = "cell volume " + num(p.vol) + " vs " + num(q.vol) + " cell=" + std::to_string(gi); }
+            if (!close(p.depth, q.depth, 1e-13)) { ok = false; why = "cell depth cell=" + std::to_string(gi); }
+            if (!close(p.thick, q.thick, 1e-9, 1e-13 * ext)) { ok = false; why = "thickness cell=" + std::to_string(gi); }
+        }
+        if (ok && a->getZcornFixed() != b->getZcornFixed()) { ok = false; why = "zcorn_fixed"; }
+        // the GRIDUNIT grid saved and loaded back is the same grid (single precision of the file)
+        if (ok) {
+            const int su = r.range(0, 2);
+            const std::string p1 = tmp + "/G" + std::to_string(fileNo++) + ".EGRID";
+            a->save(p1, false, {}, unitSys(su));
+            EclipseGrid h(p1);
+            const auto& c3 = h.getCOORD(); const auto& z3 = h.getZCORN();
+            if (c3.size() != c1.size() || z3.size() != z1.size()) { ok = false; why = "save/load array sizes"; }
+            for (size_t n = 0; n < c1.size() && ok; ++n) if (!close(c1[n], c3[n], 2e-7, 2e-7 * ext)) { ok = false; why = "save/load of the GRIDUNIT grid: COORD[" + std::to_string(n) + "] " + num(c1[n]) + " vs " + num(c3[n]); }
+            for (size_t n = 0; n < z1.size() && ok; ++n) if (!close(z1[n], z3[n], 2e-7, 1e-30)) { ok = false; why = "save/load of the GRIDUNIT grid: ZCORN[" + std::to_string(n) + "] " + num(z1[n]) + " vs " + num(z3[n]); }
+            if (ok && h.getACTNUM() != a->getACTNUM()) { ok = false; why = "save/load ACTNUM"; }
+        }
+    } catch (const std::exception& e) { ok = false; why = "exception"; }
+    if (ok) log.ok(); else log.fail("gridunit", std::string("form=") + std::to_string(form) + " deck=" + unitKw(unit) + " GRIDUNIT=" + gridUnitName(gu) + " " + why);
+    st["gridunit"]++; st[std::string("gridunit.form") + std::to_string(form)]++;
+}
+
+// P11: MapAxes transforms are mutually inverse; a grid's MapAxes survives the EGRID round trip as a map
+void propMapaxes(vh::PropLog& log, std::map<std::string, long>& st, vh::Rng& r, const std::string& tmp, long& fileNo) {
+    const double x2 = rlen(r, -1e5, 1e6), y2 = rlen(r, -1e5, 1e6);
+    const double ang = r.unit() * 6.283185307179586, skew = r.coin(1, 3) ? (r.unit() - 0.5) : 0.0;
+    const double lx = rlen(r, 1, 1000), ly = rlen(r, 1, 1000);
+    V ma = { x2 + ly * std::cos(ang + 1.5707963267948966 + skew), y2 + ly * std::sin(ang + 1.5707963267948966 + skew), x2, y2, x2 + lx * std::cos(ang), y2 + lx * std::sin(ang) };
+    const int mu = r.range(0, 3);
+    const char* names[] = { "METRES", "FEET", "CM" };
+    Block b = genBlock(r, 2, true, false);
+    std::string extra = (mu < 3 ? std::string("MAPUNITS\n ") + names[mu] + " /\n\n" : std::string()) + kwData("MAPAXES", ma);
+    bool ok = true; std::string why;
+    try {
+        EclipseGrid g(parse(deckDTops(b, true, extra)));
+        const MapAxes& m = g.getMapAxes().value();
+        const double scale = std::fabs(x2) + std::fabs(y2) + 1e4;
+        for (int t = 0; t < 6 && ok; ++t) {
+            const double x = rlen(r, -5000, 5000), y = rlen(r, -5000, 5000);
+            double tx = x, ty = y; m.transform(tx, ty); m.inv_transform(tx, ty);
+            if (!close(tx, x, 0, 1e-9 * scale) || !close(ty, y, 0, 1e-9 * scale)) { ok = false; why = "inv_transform(transform(p)) != p: " + num(tx) + "," + num(ty) + " vs " + num(x) + "," + num(y); }
+            tx = x; ty = y; m.inv_transform(tx, ty); m.transform(tx, ty);
+            if (ok && (!close(tx, x, 0, 1e-9 * scale) || !close(ty, y, 0, 1e-9 * scale))) { ok = false; why = "transform(inv_transform(p)) != p"; }
+        }
+        // unit vectors have length 1 (skew or not): |T(1,0) - T(0,0)| = 1
+        if (ok) {
+            double ax = 0, ay = 0, bx = 1, by = 0, cx = 0, cy = 1;
+            m.transform(ax, ay); m.transform(bx, by); m.transform(cx, cy);
+            if (!close(std::hypot(bx - ax, by - ay), 1.0, 1e-9) || !close(std::hypot(cx - ax, cy - ay), 1.0, 1e-9)) { ok = false; why = "transform does not preserve lengths along the axes"; }
+        }
+        // round trip: same MapAxes (operator==), and as a map equal to single precision of the stored points
+        const std::string p1 = tmp + "/M" + std::to_string(fileNo++) + ".EGRID";
+        g.save(p1, false, {}, unitSys(b.unit));
+        EclipseGrid h(p1);
+        if (ok && !(h.getMapAxes().has_value() && h.getMapAxes().value() == m)) { ok = false; why = "MapAxes after reload != MapAxes before"; }
+        if (ok && h.getMapAxes()->mapunits() != m.mapunits()) { ok = false; why = "MAPUNITS after reload"; }
+        if (ok) {
+            MapAxes viaFloat = mu < 3 ? MapAxes(std::string(names[mu]), (float) ma[0], (float) ma[1], (float) ma[2], (float) ma[3], (float) ma[4], (float) ma[5])
+                                      : MapAxes((float) ma[0], (float) ma[1], (float) ma[2], (float) ma[3], (float) ma[4], (float) ma[5]);
+            for (int t = 0; t < 4 && ok; ++t) {
+                const double x = rlen(r, -5000, 5000), y = rlen(r, -5000, 5000);
+                double ax = x, ay = y, bx = x, by = y;
+                h.getMapAxes()->transform(ax, ay); viaFloat.transform(bx, by);
+                if (!sameBits(ax, bx) || !sameBits(ay, by)) { ok = false; why = "reloaded MapAxes transforms differently from MapAxes(float(MAPAXES))"; }
+            }
+        }
+    } catch (const std::exception& e) { ok = false; why = "exception"; }
+    if (ok) log.ok(); else log.fail("mapaxes", why + " mapaxes=" + hexV(ma) + " mapunits=" + (mu < 3 ? names[mu] : "-"));
+    st["mapaxes"]++;
+}
+
+// P12: hard corner-point grids: exact volumes (also zero), index maps, cell identities for distorted cells
+void propHardCP(vh::PropLog& log, std::map<std::string, long>& st, vh::Rng& r, int maxn, const std::string& tmp, long& fileNo) {
+    CP cp = genHardCP(r, maxn, &st);
+    bool ok = true; std::string why;
+    try {
+        EclipseGrid g(std::array<int, 3>{ cp.nx, cp.ny, cp.nz }, cp.coord, cp.zcorn, cp.actnum.data());
+        if (g.getZcornFixed() != 0) { ok = false; why = "fixupZCORN adjusted a monotone grid"; }
+        size_t nact = 0;
+        const double ext = 2000;
+        for (size_t gi = 0; gi < g.getCartesianSize() && ok; ++gi) {
+            A8 X, Y, Z; corners(g, gi, X, Y, Z);
+            A8 X2, Y2, Z2; ownCorners(g.getNXYZ(), cp.coord, cp.zcorn, g.getIJK(gi)[0], g.getIJK(gi)[1], g.getIJK(gi)[2], X2, Y2, Z2);
+            for (int c = 0; c < 8 && ok; ++c) if (!close(X[c], X2[c], 0, 1e-9 * ext) || !close(Y[c], Y2[c], 0, 1e-9 * ext) || !sameBits(Z[c], Z2[c])) { ok = false; why = "getCornerPos differs from the independent corner extraction"; }
+            const double v = g.getCellVolume(gi), ve = polyVolume(X2, Y2, Z2);
+            const double cellScale = 120.0 * 120.0 * 25.0;
+            if (!(v >= 0)) { ok = false; why = "negative volume"; }
+            else if (!close(v, ve, 1e-8, 1e-9 * cellScale)) { ok = false; why = "volume " + num(v) + " != exact polyhedron volume " + num(ve); }
+            CellQ q = query(g, gi);
+            double zs = 0; for (double z : Z) zs += z;
+            if (ok && !close(q.depth, zs / 8, 1e-13)) { ok = false; why = "depth != mean corner depth"; }
+            if (ok && !close(q.depth, q.ctr[2], 1e-13)) { ok = false; why = "depth != centre z"; }
+            if (ok && !sameBits(q.thick, q.dims[2])) { ok = false; why = "thickness != dims[2]"; }
+            if (ok && !(q.thick >= 0)) { ok = false; why = "negative thickness"; }
+            // thickness adds up over the column against the pillar-mean depth of top and bottom surfaces
+            if (ok && g.getIJK(gi)[2] + 1 < cp.nz) {
+                CellQ below = query(g, gi + size_t(cp.nx) * cp.ny);
+                if (!close(below.depth - q.depth, (q.thick + below.thick) / 2, 0, 1e-9 * 100)) { ok = false; why = "depth difference of stacked cells != mean thickness"; }
+            }
+            const bool active = cp.actnum[gi] > 0;
+            nact += active;
+            if (ok && g.cellActive(gi) != active) { ok = false; why = "cellActive"; }
+            if (ok && active && g.getGlobalIndex(g.activeIndex(gi)) != gi) { ok = false; why = "global(active(g)) != g"; }
+            if (!ok) why += " cell=" + std::to_string(gi);
+        }
+        if (ok && g.getNumActive() != nact) { ok = false; why = "nactive"; }
+        // save / load keeps activity and the (possibly zero) volumes
+        if (ok) {
+            const bool formatted = r.coin();
+            const std::string p1 = tmp + "/H" + std::to_string(fileNo++) + (formatted ? ".FEGRID" : ".EGRID");
+            g.save(p1, formatted, {}, unitSys(r.range(0, 2)));
+            EclipseGrid h(p1);
+            if (h.getACTNUM() != g.getACTNUM() || h.getActiveMap() != g.getActiveMap()) { ok = false; why = "ACTNUM / active map after reload"; }
+            for (size_t gi = 0; gi < g.getCartesianSize() && ok; ++gi) {
+                const double a = g.getCellVolume(gi), c = h.getCellVolume(gi);
+                if (!close(a, c, 1e-3, 120.0 * 120.0 * 3000 * 4e-7)) { ok = false; why = "volume after reload " + num(a) + " vs " + num(c) + " cell=" + std::to_string(gi); }
+            }
+        }
+        st["hardcp.cells"] += (long) g.getCartesianSize();
+    } catch (const std::exception& e) { ok = false; why = std::string("exception: ") + e.what(); }
+    if (ok) log.ok(); else log.fail("hardcp", dims3(cp.nx, cp.ny, cp.nz) + " " + why + " coord=" + hexV(cp.coord) + " zcorn=" + hexV(cp.zcorn) + " actnum=" + joinI(cp.actnum));
+    st["hardcp"]++;
+}
+
 } // namespace
 
 int main(int argc, char** argv) {
@@ -989,6 +1634,12 @@ int main(int argc, char** argv) {
             }
             // (9) operation sequences on one object (cache, resetACTNUM, copy constructors, save/load)
             for (int t = 0; t < 3; ++t) emitSeq(sink, rng, thorough ? 5 : 4, tmp, fileNo);
+            // (10) third round: MINPV rule, RADIAL grids, GRIDUNIT, MapAxes, hard corner-point grids
+            for (int t = 0; t < 2; ++t) emitMinpv(sink, rng, maxn);
+            for (int t = 0; t < 2; ++t) emitRadial(sink, rng, thorough ? 5 : 4);
+            emitGridunit(sink, rng, thorough ? 5 : 4, tmp, fileNo);
+            emitMapaxes(sink, rng);
+            emitHardCP(sink, rng, maxn, tmp, fileNo, round);
             // (8) calculateCellVol on arbitrary (twisted) hexahedra and on their k-halves
             for (int t = 0; t < 10; ++t) {
                 A8 X, Y, Z;
@@ -1266,6 +1917,18 @@ int main(int argc, char** argv) {
             const int nseq = thorough ? 240 : 60;
             for (int t = 0; t < nseq; ++t) propSeq(log, st, rng, thorough ? 5 : 4, tmp, fileNo, staleReported);
         }
+        // P8-P12 (third round)
+        if (!indexBroken) {
+            const int n3 = thorough ? 160 : 40;
+            bool radialReloadReported = false;
+            for (int t = 0; t < n3; ++t) {
+                propMinpv(log, st, rng, thorough ? 6 : 5);
+                propRadial(log, st, rng, thorough ? 6 : 4, tmp, fileNo, radialReloadReported);
+                propGridunit(log, st, rng, thorough ? 5 : 4, tmp, fileNo);
+                propMapaxes(log, st, rng, tmp, fileNo);
+                propHardCP(log, st, rng, thorough ? 7 : 5, tmp, fileNo);
+            }
+        }
         // P5: thread-count independence, observed: re-exec with OMP_NUM_THREADS = 1, 4, 16 and compare bits
         if (indexBroken) {
             // index maps broken in the first round: nothing else was (or can safely be) evaluated
@@ -1283,14 +1946,19 @@ int main(int argc, char** argv) {
             else {
                 // and the parallel loop equals the serial per-cell computation
                 bool ok = true;
+                auto fresh = omGrids(seed, tier);          // never asked for activeVolume(): serial, uncached path
+                size_t gno = 0;
                 for (auto& g : omGrids(seed, tier)) {
+                    const bool radial = gno + 1 == fresh.size();      // the last one is the RADIAL grid
                     const auto& v = g.activeVolume();
                     for (size_t a = 0; a < v.size() && ok; ++a) {
                         A8 X, Y, Z; corners(g, g.getGlobalIndex(a), X, Y, Z);
-                        if (vh::hexF64(calculateCellVol(X, Y, Z)) != vh::hexF64(v[a])) ok = false;
+                        if (!radial && vh::hexF64(calculateCellVol(X, Y, Z)) != vh::hexF64(v[a])) ok = false;
+                        if (vh::hexF64(fresh[gno].getCellVolume(g.getGlobalIndex(a))) != vh::hexF64(v[a])) ok = false;
                     }
+                    ++gno;
                 }
-                if (ok) log.ok(); else log.fail("threads", "activeVolume()[a] != calculateCellVol(corners of global(a))");
+                if (ok) log.ok(); else log.fail("threads", "activeVolume()[a] != serial per-cell volume of global(a) (calculateCellVol / getCellVolume of an object without cache)");
             }
             st["threads"] += 3;
         }
